@@ -169,7 +169,7 @@ def rule_a(ctx: Context, R: Reporter):
                 for c in calls_in_node(nd):
                     if isinstance(c.func, ast.Attribute) and c.func.attr in ("predict", "predict_proba") and cl in [t for t in ctx.res.expr_types(m, c.func.value) if isinstance(t, ClassInfo)]:
                         sites.append((sc, m, nd, c))
-    R.floor("C14.a", "predict sites on the shared clusterer", len(sites), 3)
+    R.floor("C14.a", "predict sites on the shared clusterer", len(sites), 2)
     # the clusterer is fitted and queried in unit-cube coordinates only
     from ..records import Tagger
 
@@ -186,7 +186,7 @@ def rule_a(ctx: Context, R: Reporter):
                         R.check("C14.a", f"{m.short}: the clusterer's {c.func.attr} receives unit-cube coordinates", tag == "u", m, c,
                                 msg=f"{m.short}: `{unparse(c)[:60]}` passes an array of field '{tag}' to the clusterer, which is fitted in unit-cube coordinates `u`: labels are "
                                     f"predicted in the wrong coordinate system and refer to other clusters' modes", key=f"cluster-coords:{m.short}:{c.func.attr}:{_ord(c, m)}")
-    R.floor("C14.a", "clusterer fit/predict argument sites", n_args, 4)
+    R.floor("C14.a", "clusterer fit/predict argument sites", n_args, 3)
     for (sc, m, nd, c) in sites:
         fl = flow_of(m.node)
         cfg = fl.cfg
